@@ -488,7 +488,11 @@ def rule_c11_best_states(prog: Program, col: Collector) -> None:
     S = samp[0].term
     actions_t, values_t = ("index", S, ("const", 0)), ("index", S, ("const", 1))
     # `for i, seq in enumerate(sample_actions)` is recorded as `for i in range(len(sample_actions))` with seq = sample_actions[i]
-    loops = [e for e in ft.of_kind("loop") if e.iter == ("call", ("global", "range"), (("call", ("global", "len"), (actions_t,), ()),), ())]
+    # ... and `for seq, column in zip(sample_actions, sample_values.T)` as a loop over the common positions (one column per sequence)
+    len_a = ("call", ("global", "len"), (actions_t,), ())
+    len_c = ("call", ("global", "len"), (("attr", values_t, "T"),), ())
+    loops = [e for e in ft.of_kind("loop") if e.iter in (("call", ("global", "range"), (len_a,), ()),
+                                                         ("call", ("global", "range"), (("call", ("global", "min"), (len_a, len_c), ()),), ()))]
     if not loops:
         col.undecidable(ref.where(), ref.short, "selection loop is not `for i, seq in enumerate(sample_actions)`")
         return
@@ -498,7 +502,10 @@ def rule_c11_best_states(prog: Program, col: Collector) -> None:
     stores = [e for e in ft.of_kind("store") if any(f[0] == "for" and f[1] == lp.uid for f in e.ctx)]
     steps = ("call", ("global", "len"), (seq_t,), ())
     col_i = ("index", values_t, ("tuple", (("slice", None, None, None), i_t)))
-    vstore = [e for e in stores if e.value == col_i]
+    col_t = ("index", ("attr", values_t, "T"), i_t)        # the same column of the (samples x sequences) matrix through its transpose
+    vstore = [e for e in stores if e.value in (col_i, col_t)]
+    if vstore and vstore[0].value == col_t:
+        col_i = col_t
     col.check(len(vstore) == 1 and vstore[0].index == steps, ref.where(vstore[0].node if vstore else None), ref.short,
               "best[len(seq)] = sample_values[:, i] with i the enumerate index of seq", construct="best-column",
               necessity="the gap column must belong to the action sequence it is reported with")
